@@ -96,7 +96,7 @@ public:
 	HFSM2_CONSTEXPR(NO) RC_(const RC_& )														noexcept = default;
 	HFSM2_CONSTEXPR(NO) RC_(	  RC_&&)														noexcept = default;
 
-private:
+protected:
 	using Base::_core;
 };
 
@@ -177,7 +177,7 @@ public:
 public:
 	using Base::Base;
 
-private:
+protected:
 	using Base::_core;
 };
 
@@ -274,7 +274,7 @@ public:
 
 	HFSM2_CONSTEXPR(14)	void setContext(Context context)										noexcept	{ _core.context = context; }
 
-private:
+protected:
 	using Base::_core;
 };
 
